@@ -413,6 +413,9 @@ func (r *Rng) tokKey() []byte {
 var tokDurations = []int64{0, 1, 2, 3, 120, 119, 121, 60, 3600, -1, -2, -120, -3600, 1 << 31, 1 << 40}
 
 func genTokens(o *Out, tier string, r *Rng) {
+	// main.go seeds SplitMix64 with seed*increment+c, so the streams of seeds k and k+1 are the same stream
+	// shifted by one draw; restart from a drawn state to decorrelate the seeds
+	r = &Rng{s: r.Next()}
 	rounds := 60
 	if tier == "thorough" {
 		rounds = 2500
